@@ -31,6 +31,7 @@ import (
 	"fmt"
 	"go/ast"
 	"go/token"
+	"path/filepath"
 	"reflect"
 	"sort"
 	"strings"
@@ -493,6 +494,27 @@ func xc04FuncName(fd *ast.FuncDecl) string {
 	return fd.Name.Name
 }
 
+// xc04PackageMaps adds the package-level variables of map type declared in f.
+func xc04PackageMaps(f *ast.File, maps map[string]bool) {
+	for _, d := range f.Decls {
+		if gd, ok := d.(*ast.GenDecl); ok && gd.Tok == token.VAR {
+			for _, s := range gd.Specs {
+				vs := s.(*ast.ValueSpec)
+				for i, n := range vs.Names {
+					if vs.Type != nil && xc04IsMapType(vs.Type) {
+						maps[n.Name] = true
+					}
+					if i < len(vs.Values) {
+						if cl, ok := vs.Values[i].(*ast.CompositeLit); ok && cl.Type != nil && xc04IsMapType(cl.Type) {
+							maps[n.Name] = true
+						}
+					}
+				}
+			}
+		}
+	}
+}
+
 func xc04PanicSites(repo string, w *leanWriter) error {
 	var sites, srcs []string
 	for _, sf := range xc04SiteFuncs {
@@ -506,24 +528,18 @@ func xc04PanicSites(repo string, w *leanWriter) error {
 			want[n] = true
 		}
 		found := map[string]bool{}
-		// package-level map variables
+		// package-level map variables: of this file and of the other inventoried files of the same package
+		// (sev.bitWidth is declared in measurement.go and also read by LaunchDigest in ld_from_ovmf.go)
 		maps := map[string]bool{}
-		for _, d := range f.Decls {
-			if gd, ok := d.(*ast.GenDecl); ok && gd.Tok == token.VAR {
-				for _, s := range gd.Specs {
-					vs := s.(*ast.ValueSpec)
-					for i, n := range vs.Names {
-						if vs.Type != nil && xc04IsMapType(vs.Type) {
-							maps[n.Name] = true
-						}
-						if i < len(vs.Values) {
-							if cl, ok := vs.Values[i].(*ast.CompositeLit); ok && cl.Type != nil && xc04IsMapType(cl.Type) {
-								maps[n.Name] = true
-							}
-						}
-					}
-				}
+		for _, other := range xc04SiteFuncs {
+			if filepath.Dir(other.file) != filepath.Dir(sf.file) {
+				continue
 			}
+			_, of, err := parseFile(repo, other.file)
+			if err != nil {
+				return err
+			}
+			xc04PackageMaps(of, maps)
 		}
 		for _, d := range f.Decls {
 			fd, ok := d.(*ast.FuncDecl)
